@@ -34,7 +34,13 @@ FORMS = ["gopher", "gophers", "gplus", "gpluss", "gdollar", "gbang", "http", "ht
          "waphdr", "gemini", "spartan"]
 MUTATIONS = ["none", "none", "none", "nul", "msg0", "msgneg", "msghuge", "msgx", "msgon", "slash", "dslash",
              "dotdot", "missing", "pctnul", "qmark", "bar", "dotseg", "dotseg", "tslash2", "tslash2"]
-RAW = ["\t\r\n", "x\t\r\n", "x\tq\t\r\n", "\t\t\t\t\r\n", "gemini://[/\r\n", "gemini://[::1/x\r\n", "gemini://\r\n",
+# long regular strings after the prefixes the handlers test with regular expressions (a pattern that backtracks on them
+# never finishes)
+_REDOS = [pre + unit * n + post for pre in ("URL:", "/URL:", "/", "GET /URL:", "gemini://h/URL:", "h /URL:")
+          for unit, n in (("a", 40), ("a.", 25), ("a-b+", 12), ("0", 64), ("www.example-host.org", 3))
+          for post in ("\r\n", "/index.html\r\n")]
+_REDOS = [r if not r.startswith(("GET ", "h ")) else (r[:-2] + (" HTTP/1.0\r\n\r\n" if r.startswith("GET ") else " 0\r\n")) for r in _REDOS]
+RAW = _REDOS + ["\t\r\n", "x\t\r\n", "x\tq\t\r\n", "\t\t\t\t\r\n", "gemini://[/\r\n", "gemini://[::1/x\r\n", "gemini://\r\n",
        "gemini://h\r\n", "gemini://h/GEMINI-QUERY/x\r\n", "gemini://h/GEMINI-QUERY/x?a%20b\r\n",
        "GET / HTTP/1.0\r\n", "GET /", "GET / HTTP/1.0\r\nAccept", "GET /?searchrequest HTTP/1.0\r\n\r\n",
        "GET /?searchrequest=%ff&x=1 HTTP/1.0\r\n\r\n", "GET /PYGOPHERD-HTTPPROTO-ICONS/text.gif HTTP/1.0\r\n\r\n",
